@@ -128,6 +128,11 @@ fn candidates(sc: &Scenario) -> Vec<Scenario> {
         }
     }
     // history
+    if sc.repeat > 1 {
+        push(&|c| c.repeat = 1);
+        push(&|c| c.repeat /= 2);
+        push(&|c| c.repeat -= 1);
+    }
     if sc.solves.len() > 1 {
         for i in 0..sc.solves.len() {
             push(&|c| {
